@@ -402,7 +402,7 @@ C09_KINDS = ["steady", "burst", "burst", "concurrent", "stop-idle", "stop-dispat
 
 
 def gen(rng, tier, kinds, risky):
-    reps = 3 if tier == "quick" else 150
+    reps = 6 if tier == "quick" else 150
     out = []
     for backend in BACKENDS:
         for kind in kinds:
@@ -473,9 +473,36 @@ def judged_main(mod, tier, seed, replay):
         return out, rc, err
     C.run_lines = run_lines
     try:
-        return diffcheck.run(mod, tier, seed, replay)
+        rc = diffcheck.run(mod, tier, seed, replay)
     finally:
         C.run_lines = orig
+    if tier == "thorough" and not replay and os.environ.get("VERIF_NO_RACE") != "1":
+        rc = max(rc, race_stage(mod, seed))
+    return rc
+
+
+def race_stage(mod, seed):
+    """thorough tier: a sample of the scenarios on a `go build -race` harness; a data race reported by the
+    detector in broker code is a violation (the observation oracles ran in the main stage)"""
+    import random, subprocess
+    ok, out, hbin = C.build_harness(race=True)
+    if not ok:
+        print("note: the -race harness does not build: " + out[-300:])
+        return 0
+    rng = random.Random(seed * 7919 + 11)
+    cases = list(getattr(mod, "corpus", lambda: [])()) + mod.gen(rng, "quick", {KEY_D24})
+    env = dict(os.environ, VERIF_CASE_TIMEOUT_MS="60000", VERIF_SCHED_TIMEOUT_MS="30000")
+    p = subprocess.run([hbin, mod.PROP], input="\n".join(cases) + "\n", stdout=subprocess.PIPE, stderr=subprocess.PIPE,
+                       text=True, timeout=3000, env=env)
+    n = p.stderr.count("WARNING: DATA RACE")
+    print(f"{mod.PROP}: -race stage: {len(cases)} scenarios, {n} data race report(s)")
+    if n:
+        path = C.write_replay(mod.PROP, f"race-{seed}.txt",
+                              f"# property {mod.PROP}: data race reported by the -race build\n" +
+                              "\n".join("# " + l for l in p.stderr.splitlines()[:60]) + "\n" + "\n".join(cases[:50]) + "\n")
+        print(f"VIOLATION property={mod.PROP} replay={path} the Go race detector reports {n} data race(s) in broker scenarios")
+        return 1
+    return 0
 
 
 # ---------------------------------------------------------------------------------------------
